@@ -5,6 +5,7 @@ Every theorem is about the model `Filter.runPipeline` / `Filter.updateFilter`, f
 every regex oracle and every command list; `SameSets` compares the four filter sets as sets.
 -/
 import Paroxy.Proofs.FilterOrder
+import Paroxy.Proofs.Costs
 namespace Paroxy.Props.C06
 open Paroxy Paroxy.Filter
 
@@ -218,5 +219,41 @@ theorem C06_exclude_iff_include_not (wf : c.WF) (pm X raw : Codes) (pred : Span 
       · exact (negTriple_iff_not_featuring c pm X pred st H q (H.selPrograms q hs)).mp hq hf
       · exact H.noImports _ _ hi
     · exact H.noImports _ _ hi
+
+/-- **Order-independent, as lists.** When the initial selection has no duplicate (it is the key list of
+the database), any permutation of the commands yields the very same selection *list* — not only the
+same set — so that anything computed from it in order (the ranking, the report) is the same. -/
+theorem C06_selection_order_independent (st s s' : State) (cmds cmds' : List Command)
+    (hperm : cmds'.Perm cmds) (hn : st.selected.Nodup)
+    (h : runPipeline c r st cmds = .ok s) (h' : runPipeline c r st cmds' = .ok s') :
+    s.selected = s'.selected :=
+  sublist_ext hn (runPipeline_sublist c r cmds st s h) (runPipeline_sublist c r cmds' st s' h')
+    ((C06_order_independent c r st cmds cmds' hperm).2 s s' h h').1
+
+/-- **Costs are order-independent.** After any permutation of the commands, every taxon and every
+program record has the same learning cost, and the assessment of the final selection (the ranked
+`(cost, path)` list of C07) is the same list. -/
+theorem C06_costs_order_independent (strat : Costs.Strategy) (progs : List (Codes × TaxaSpans))
+    (st s s' : State) (cmds cmds' : List Command)
+    (hperm : cmds'.Perm cmds) (hn : st.selected.Nodup)
+    (h : runPipeline c r st cmds = .ok s) (h' : runPipeline c r st cmds' = .ok s') :
+    (∀ t, Costs.taxonCost strat s.knowledge t = Costs.taxonCost strat s'.knowledge t) ∧
+    (∀ rec, Costs.programCost strat s.knowledge rec = Costs.programCost strat s'.knowledge rec) ∧
+    Costs.assess strat progs s.knowledge s.selected = Costs.assess strat progs s'.knowledge s'.selected := by
+  have hk := ((C06_order_independent c r st cmds cmds' hperm).2 s s' h h').2.1
+  have ht : ∀ t, Costs.taxonCost strat s.knowledge t = Costs.taxonCost strat s'.knowledge t :=
+    fun t => Costs.taxonCost_congr strat _ _ hk t
+  have hf : (fun (acc : Rat) (ts : Codes × List Span) => acc + Costs.taxonCost strat s.knowledge ts.1) =
+      (fun acc ts => acc + Costs.taxonCost strat s'.knowledge ts.1) := by
+    funext acc ts; rw [ht]
+  have hp : ∀ rec, Costs.programCost strat s.knowledge rec = Costs.programCost strat s'.knowledge rec := by
+    intro rec; unfold Costs.programCost; rw [hf]
+  refine ⟨ht, hp, ?_⟩
+  rw [C06_selection_order_independent c r st s s' cmds cmds' hperm hn h h']
+  unfold Costs.assess
+  have : (fun p => (dictGet? progs p).map fun rec => (Costs.programCost strat s.knowledge rec, p)) =
+      (fun p => (dictGet? progs p).map fun rec => (Costs.programCost strat s'.knowledge rec, p)) := by
+    funext p; simp only [hp]
+  rw [this]
 
 end Paroxy.Props.C06
